@@ -13,7 +13,7 @@ RULE = ("(i) optimiser entry point on sample covariances of hostile data: 2..2NW
         "floor case where at least one entry was removed; distinct by hash")
 ASSUMPTIONS = ["precondition: the covariance handed to the optimiser is finite symmetric PSD; singleton+unbiased (NaN by definition) is counted "
                "as precondition_not_met", "PD decided exactly for the double matrix (scaled Cholesky, mpmath LDL^T arbiter)"]
-SHARD_TIMEOUT = {"quick": 900, "thorough": 3400}
+SHARD_TIMEOUT = {"quick": 300, "thorough": 3400}
 MIX = {"single:hostile": 5, "single:small": 1, "joint:joint": 1}
 PROPS = ("C03",)
 KINDS = ["sensor_scale", "uniform_scale", "const_sensor", "dup_points", "corr", "zero", "plain"]
